@@ -3,6 +3,7 @@ import genb
 from props.codec_common import *
 
 THEOREMS = ["C01_roundtrip", "C01_deterministic_idempotent", "C01_decode_encode"]
+RELEASE = True          # debug and release builds of the harness (debug_assert!, overflow checks, cfg(debug_assertions))
 RULE = ("RT <bundle>: the implementation encodes, decodes its own output and encodes again; bundles drawn over the C01 domain "
         "(0-40 extension blocks plus 22/23/24/25/300-block cases, every CRC type and prior CRC state per block, dtn/ipn/none "
         "EIDs with multi-byte names, boundary-biased u64 fields, fragments, unknown block types, empty payloads); non-trivial = "
@@ -21,7 +22,7 @@ def corpus():
 
 
 def cases(rng, tier):
-    return [_line(b) for b in bundle_cases(rng, 1500 if tier == "quick" else 150000)]
+    return [_line(b) for b in bundle_cases(rng, 1500 if tier == "quick" else 150000)] + pair_lines(rng, 300 if tier == "quick" else 30000, _line)
 
 
 def oracle(line, out, mode):
